@@ -92,19 +92,59 @@ def run(ctx):
         if len(st) == 1 and st[0][2] == ("param", 2) and eq_mod_comm(st[0][3], ("binop", "BitAnd", ("binop", "Shr", ("param", 2), ("const", 1, "i32")), ("const", 0x77, "u8"))):
             halves.append(c)
     ctx.floor("R14.4", "halving closures ((b >> 1) & 0x77)", len(halves), 1)
+    # every halving mask used on the row's storage keeps the low three bits of EVERY nibble of its width (a wider,
+    # word-at-a-time halving is fine as long as its mask is 0x77 replicated over the whole word)
+    NIBBLES = {"u8": 2, "u16": 4, "u32": 8, "u64": 16, "usize": 16, "u128": 32}
+    scope = list(rfns)
+    for f in rfns:
+        scope += F.closures_of(f)
+    nmask = 0
+    for g in scope:
+        for b in sorted(g.live_blocks()):
+            for i, st in enumerate(g.blocks[b]["stmts"]):
+                if st["k"] != "assign" or st["rv"]["k"] != "binop" or st["rv"]["op"] != "BitAnd":
+                    continue
+                e = g.origin_rvalue(st["rv"])
+                if e[0] != "binop" or e[1] != "BitAnd":
+                    continue
+                x, y = e[2], e[3]
+                if y[0] == "binop" and y[1] == "Shr":
+                    x, y = y, x
+                if not (x[0] == "binop" and x[1] == "Shr" and const_of(x[3]) == 1):
+                    continue
+                nmask += 1
+                ty = y[2] if y[0] == "const" and len(y) > 2 else None
+                want = int("7" * NIBBLES[ty], 16) if ty in NIBBLES else None
+                ctx.check(y[0] == "const" and want is not None and y[1] == want, "R14.4", "%s|halving-mask-covers-every-nibble" % g.name,
+                          "a halving `(x >> 1) & M` on the counter storage uses M = 0x7 in every nibble of its width, so no counter inherits its left neighbour's low bit",
+                          g.where(b, i), "mask=%s" % (fmt(y),))
+    ctx.floor("R14.4", "halving mask expressions", nmask, 1)
     half_fns = set()
     for c in halves:
         cc = closure_captures(F, c.name)
         p = cc[0] if cc else None
         ok = False
+        form = ""
         if p is not None:
             for b, t in p.calls():
                 if t["callee"].endswith("Iterator::for_each"):
                     it = p.op_origin(t["args"][0])
-                    ok = is_call_to(it, "iter_mut") and mentions(it, lambda s: s == base)
+                    recv = it[2][0] if is_call_to(it, "iter_mut") and it[2] else None
+                    while recv is not None and recv[0] == "call" and recv[1].split("::")[-1] in ("deref_mut", "as_mut_slice", "as_mut") and recv[2]:
+                        recv = recv[2][0]
+                    if recv is not None and strip_site(recv) == base:
+                        ok, form = True, "every byte"
+                    elif recv is not None and is_call_to(recv, "into_remainder") and recv[2]:
+                        # word-at-a-time form: the bytes the closure sees are only the tail; the whole chunks must be
+                        # rewritten in place from a halving of their own content
+                        ch = recv[2][0]
+                        whole = [1 for b2, t2 in p.calls() if t2["callee"].endswith("copy_from_slice")
+                                 and mentions(p.op_origin(t2["args"][1]), lambda s: s[0] == "binop" and s[1] == "BitAnd" and any(z[0] == "binop" and z[1] == "Shr" for z in s[2:4]))]
+                        if is_call_to(ch, "chunks_exact_mut") and ch[2] and mentions(ch[2][0], lambda s: s == base) and whole:
+                            ok, form = True, "whole words + tail bytes"
             if ok:
                 half_fns.add(p.name)
-        ctx.check(ok, "R14.4", "%s|halve-every-byte" % c.name, "halving is applied to every byte of the row (iter_mut().for_each)", c.where())
+        ctx.check(ok, "R14.4", "%s|halve-every-byte" % c.name, "halving is applied to every byte of the row (iter_mut().for_each over the row itself%s)" % (": " + form if form else ""), c.where())
     resets = []
     for n, c in F.fns.items():
         if c.kind == "Closure" and any(t.get("rpath") in half_fns for b, t in c.calls()):
